@@ -271,6 +271,23 @@ ADD8 = {
  "C17": " Round 8: CE-MATCHLEN, WR-BLOCKSIZE-DEFAULT.",
  "C18": " Round 8: OB-DICTCAP-RANGE.",
 }
+ADD9 = {
+ "C01": " Round 9: TM-XZW (writer container format: varints of every varint encoder of the package by evaluation, CRC placement, index) also for the round trip; COPY-ALL fresh storage under a whole-struct copy; SEQ-W2-SPLIT decided per path when a helper cuts the segment.",
+ "C02": " Round 9: TM-XZW block-trailer-always (every successful Close writes padding + check), uvarint-encoder:<fn>; COPY-ALL (whole-struct copy, fresh storage).",
+ "C03": " Round 9: OB V22 presence by guard / by (flags, mask); V23-always; guards of helpers called several times are taken per call site.",
+ "C04": " Round 9: OB V23-always (the upper size bounds are tested on every return without error, per call site, by relation refutation); V14/V15 second spellings; frozen package-level tables are constants (filter id set, property length).",
+ "C05": " Round 9: EF origin ordinals by effective position; validation errors that do not depend on the source failure.",
+ "C08": " Round 9: COPY-ALL (whole-struct copy then deep copies, fresh storage); SEQ-W2-SPLIT per path.",
+ "C09": " Round 9: PN type-assert justification through multi-result helpers.",
+ "C11": " Round 9: EF-IO / EF-DROP over the reader cone (a dropped error lets the reader go on with a nil range decoder).",
+ "C12": " Round 9: OB V23/V24 per call site with relation refutation (n == size excludes n < size).",
+ "C13": " Round 9: as C12.",
+ "C14": " Round 9: GL-GLOBAL accepts package-level tables that are only read (frozen).",
+ "C16": " Round 9: CE reads frozen package-level tables (chunk automaton as map / array literals); SEQ-STARTCHUNK resolves the state a helper returns.",
+ "C18": " Round 9: CE models closures and sort.Search (EncodeDictCap as a binary search).",
+}
+for pid, text in ADD9.items():
+    ADD8[pid] = ADD8.get(pid, "") + text
 for pid, text in ADD8.items():
     ADD7[pid] = ADD7.get(pid, "") + text
 for pid, text in ADD7.items():
